@@ -27,6 +27,7 @@ import (
 	"os"
 	"path/filepath"
 	"sort"
+	"strconv"
 	"strings"
 
 	"golang.org/x/tools/go/packages"
@@ -55,6 +56,16 @@ type NormReport struct {
 	Removed []string // helper declarations dropped after all their calls were inlined
 	Failed  string   // non-empty: normalised source was not usable; original analysed
 	Rounds  int
+	// Sites lists the call expressions that were replaced by the callee's body, by their original position.
+	Sites []InlinedSite
+}
+
+// InlinedSite is one call that the normaliser replaced by the body of its callee.
+type InlinedSite struct {
+	File            string
+	Line, Col       int
+	EndLine, EndCol int
+	Callee          string
 }
 
 // funcKey is the inventory key of a declaration: "pkgpath\tname" or "pkgpath\tRecv.name".
@@ -236,6 +247,9 @@ type pkgNorm struct {
 	kept    map[string]bool
 	renamed map[string]bool   // inventory keys of functions that are renames of known ones
 	recvOld map[string]string // "pkg\tNewType" -> inventory name of a renamed type
+
+	pendingImports [][2]string     // imports (name, path) the site being inlined needs in the caller's file
+	failedSites    map[string]bool // call positions that could not be inlined
 }
 
 // isKnown reports whether the declaration key belongs to the reviewed inventory (directly, as a
@@ -354,7 +368,9 @@ func (n *pkgNorm) apply(edits map[string][]edit) {
 }
 
 // recheck re-parses and type-checks the package from n.src.
-func (n *pkgNorm) recheck(names []string) bool {
+func (n *pkgNorm) recheck(names []string) bool { return n.recheckN(names, 0) }
+
+func (n *pkgNorm) recheckN(names []string, depth int) bool {
 	var files []*ast.File
 	for _, name := range names {
 		f, err := parser.ParseFile(n.fset, name, n.src[name], parser.ParseComments|parser.SkipObjectResolution)
@@ -374,6 +390,7 @@ func (n *pkgNorm) recheck(names []string) bool {
 		Instances:  map[*ast.Ident]types.Instance{},
 	}
 	var firstErr error
+	var unused []types.Error
 	conf := types.Config{
 		Importer: importerFunc(func(path string) (*types.Package, error) {
 			if ip, ok := n.pk.Imports[path]; ok && ip.Types != nil {
@@ -385,6 +402,10 @@ func (n *pkgNorm) recheck(names []string) bool {
 			return nil, fmt.Errorf("import %q not loaded", path)
 		}),
 		Error: func(err error) {
+			if te, ok := err.(types.Error); ok && strings.Contains(te.Msg, "imported and not used") {
+				unused = append(unused, te)
+				return
+			}
 			if firstErr == nil {
 				firstErr = err
 			}
@@ -392,6 +413,34 @@ func (n *pkgNorm) recheck(names []string) bool {
 		GoVersion: goVersionOf(n.pk),
 	}
 	tp, _ := conf.Check(n.pk.PkgPath, n.fset, files, info)
+	if firstErr == nil && len(unused) > 0 && depth == 0 {
+		// an import whose only user was a helper that has been merged into another file: keep it for its side
+		// effects only
+		edits := map[string][]edit{}
+		for _, te := range unused {
+			for _, f := range files {
+				for _, imp := range f.Imports {
+					if imp.Pos() <= te.Pos && te.Pos <= imp.End() {
+						file := n.fileOf(imp.Pos())
+						if imp.Name != nil {
+							edits[file] = append(edits[file], edit{n.offset(imp.Name.Pos()), n.offset(imp.Name.End()), "_"})
+						} else {
+							at := n.offset(imp.Path.Pos())
+							edits[file] = append(edits[file], edit{at, at, "_ "})
+						}
+					}
+				}
+			}
+		}
+		if len(edits) > 0 {
+			n.files = files
+			n.apply(edits)
+			return n.recheckN(names, depth+1)
+		}
+	}
+	if firstErr == nil && len(unused) > 0 {
+		firstErr = unused[0]
+	}
 	if firstErr != nil {
 		n.keep("type error after rewrite: %v", firstErr)
 		return false
@@ -545,10 +594,16 @@ func (n *pkgNorm) round() map[string][]edit {
 	}
 	siteCalls := map[*ast.CallExpr]bool{}
 	for _, s := range sites {
+		// a site that could not be inlined in an earlier round stays a plain call: it does not make the calls
+		// around it wait
+		if n.failedSites[n.fset.Position(s.call.Pos()).String()] {
+			continue
+		}
 		siteCalls[s.call] = true
 	}
 	edits := map[string][]edit{}
 	hostUsed := map[ast.Stmt]bool{}
+	importAdded := map[string]bool{}
 	for _, s := range sites {
 		// innermost first: a site whose arguments contain another site waits a round
 		nested := false
@@ -561,18 +616,38 @@ func (n *pkgNorm) round() map[string][]edit {
 		if nested {
 			continue
 		}
+		n.pendingImports = nil
 		es, host, why := n.inlineSite(s.call, s.c)
 		if why == "" && hostUsed[host] {
 			continue // one site per host statement per round
 		}
 		if why != "" {
 			n.keep("%s at %s: %s", strings.Replace(s.c.key, "\t", ".", 1), n.shortPos(s.call.Pos()), why)
+			if n.failedSites == nil {
+				n.failedSites = map[string]bool{}
+			}
+			n.failedSites[n.fset.Position(s.call.Pos()).String()] = true
 			continue
 		}
 		file := n.fileOf(s.call.Pos())
 		hostUsed[host] = true
 		edits[file] = append(edits[file], es...)
+		for _, imp := range n.pendingImports {
+			key := file + "\x00" + imp[0]
+			if importAdded[key] {
+				continue
+			}
+			importAdded[key] = true
+			for _, f := range n.files {
+				if n.fileOf(f.Pos()) == file {
+					at := n.offset(f.Name.End())
+					edits[file] = append(edits[file], edit{at, at, "; import " + imp[0] + " " + strconv.Quote(imp[1])})
+				}
+			}
+		}
 		n.rep.Inlined = append(n.rep.Inlined, fmt.Sprintf("%s -> %s", strings.Replace(s.c.key, "\t", ".", 1), n.enclosingFuncName(s.call)))
+		a, b := n.fset.Position(s.call.Pos()), n.fset.Position(s.call.End())
+		n.rep.Sites = append(n.rep.Sites, InlinedSite{File: a.Filename, Line: a.Line, Col: a.Column, EndLine: b.Line, EndCol: b.Column, Callee: strings.Replace(s.c.key, "\t", ".", 1)})
 	}
 	return edits
 }
@@ -1981,6 +2056,12 @@ func (n *pkgNorm) scopeCompatible(c *callee, call *ast.CallExpr, caller *ast.Fun
 			switch o := obj.(type) {
 			case *types.PkgName:
 				_, at := inner.LookupParent(id.Name, call.Pos())
+				if at == nil {
+					// the caller's file does not import the package (and nothing else has that name there): the
+					// import is added to that file together with the inlined body
+					n.pendingImports = append(n.pendingImports, [2]string{id.Name, o.Imported().Path()})
+					return true
+				}
 				pn, ok := at.(*types.PkgName)
 				if !ok || pn.Imported() != o.Imported() {
 					why = "import " + id.Name + " differs at the call site"
